@@ -42,7 +42,7 @@ CHECKS = {
         "level": "fault_enumeration",
         "assumptions": ["compress/gzip and crypto/md5 are trusted; corruption = xor of one byte of the packed payload"],
         "runs": [
-            {"pkg": "pure", "run": "^TestC12(Invert|Unregistered)$", "quick": 1500, "thorough": 60000, "shards_thorough": 6},
+            {"pkg": "pure", "run": "^TestC12(Invert|Unregistered|PipeReuse)$", "quick": 1500, "thorough": 60000, "shards_thorough": 6},
             {"pkg": "pure", "run": "^TestC12Corruption$", "quick": 150, "thorough": 4000, "shards_thorough": 4},
             {"pkg": "pure", "run": "^TestC12CorruptionExhaustive$", "quick": 1, "thorough": 1, "only": "thorough", "rapid": False},
         ],
@@ -187,6 +187,8 @@ CHECKS = {
         "parallel_quick": 2,
         "runs": [
             {"pkg": "racew", "race": True, "run": "^TestC14Programs$", "quick": 100, "thorough": 4000, "shards_thorough": 8, "timeout_quick": 900},
+            {"pkg": "racew", "race": True, "run": "^TestC14Pairs$", "quick": 1, "thorough": 1, "rapid": False, "env": {"VERIF_C14_ROUNDS": "3000"}, "timeout_quick": 900},
+            {"pkg": "racew", "race": True, "run": "^TestC14Pairs$", "quick": 1, "thorough": 1, "rapid": False, "only": "thorough", "env": {"VERIF_C14_ROUNDS": "30000"}},
             {"pkg": "racew", "race": True, "run": "^TestC14Programs$", "quick": 40, "thorough": 1200, "shards_thorough": 4, "env": {"VERIF_C14_LOG": "info"}, "timeout_quick": 900},
         ],
     },
